@@ -129,7 +129,9 @@ def run(tape, scenario):
         def update_devices(self, data):
             sg = self.sg
             started[0] = True
-            if scenario in ("loss", "two-groups"):
+            if scenario in ("loss", "two-groups") and all(g.cycles for g in groups) \
+                    and not all(g.finishing for g in groups):
+                # (no loss while a group is still being configured: start-up has no retry)
                 wf.loss = 15 if scenario == "loss" else 6
             before = sg.wkc_errors
             resp = bytes(data)
@@ -191,14 +193,12 @@ def run(tape, scenario):
         l1 = [ln for ln in links if (ln["sm"] == "out" and out_owner[ln["term"]] == 1)
               or (ln["sm"] == "in" and ln not in l0) or (ln["sm"] == "in"
                                                           and tape.chance("c30/in-both", 30))]
-        fallback = dict(term=0, sm="in" if specs[0]["in_sz"] else "out", pos=0, size="B")
-        if fallback["sm"] == "out":
-            l1 = [ln for ln in l1 if not (ln["sm"] == "out" and ln["term"] == 0)]
-            out_owner[0] = 0
-        groups.append(Group(0, l0 or [fallback]))
-        groups.append(Group(1, l1 or [dict(fallback, sm="in") if specs[0]["in_sz"]
-                                      else dict(term=0, sm="out", pos=0, size="B")]
-                            if (l1 or specs[0]["in_sz"]) else [fallback]))
+        if l0 and l1:
+            groups.append(Group(0, l0))
+            groups.append(Group(1, l1))
+        else:
+            world.count("c30/two-groups-degenerate")
+            groups.append(Group(0, links))
         # a terminal needs an FMMU per mapping
         for k, sp in enumerate(specs):
             need = sum((1 if sp["in_sz"] and k in g.used else 0) + (1 if k in g.rw else 0)
